@@ -26,6 +26,7 @@ class Bus:
         self.loop, self.xknx, self.devs, self.latency, self.ev = loop, xknx, devs, latency, []
         self.serial_plan = None      # responses to IndividualAddressSerialRead: list of (serial, addr)
         self.auth = None             # (free level, client level)
+        self.lostcon, self.nsent = None, 0   # lostcon = k: the k-th frame handed over is lost on our own side (no L_Data.con, nobody hears it)
 
     def inject(self, data):
         from xknx.cemi import CEMIFrame, CEMIMessageCode
@@ -52,6 +53,9 @@ class Bus:
         from xknx.cemi import CEMIFrame, CEMIMessageCode
 
         d = cemi.data
+        self.nsent += 1
+        if self.nsent == self.lostcon:
+            return
         con = CEMIFrame(code=CEMIMessageCode.L_DATA_CON, data=d).to_knx()
         self.loop.inject(self.xknx.cemi_handler.handle_raw_cemi, con)
         self.observe(d)
@@ -127,13 +131,14 @@ def popjson(devs):
     return [{"addr": d["ia"].raw - 0x1100, "prog": 1 if d["prog"] else 0, "beh": "answers" if d["beh"] == "lossy" else d["beh"]} for d in devs]
 
 
-def run_write(pop, latency=0.02, seed=0):
-    from xknx.exceptions import ManagementConnectionError
+def run_write(pop, latency=0.02, seed=0, lostcon=None):
+    from xknx.exceptions import CommunicationError, ManagementConnectionError
     from xknx.management import procedures
 
     with virtual_world(seed) as loop:
         async def main():
             xknx, bus = make(loop, pop, latency)
+            bus.lostcon = lostcon
             xknx.task_registry.start()
             before = popjson(bus.devs)
             try:
@@ -141,6 +146,8 @@ def run_write(pop, latency=0.02, seed=0):
                 bus.ev.append({"ev": "result", "out": "ok"})
             except ManagementConnectionError:
                 bus.ev.append({"ev": "result", "out": "err"})
+            except CommunicationError as ex:       # the interface could not send (a lost L_Data.con): the procedure ends with the transport's error
+                bus.ev.append({"ev": "result", "out": "err"} if lostcon else {"ev": "raised", "what": type(ex).__name__})
             except (Exception, asyncio.CancelledError) as ex:  # noqa: BLE001 - recorded; nothing explains it
                 bus.ev.append({"ev": "raised", "what": type(ex).__name__})
             await asyncio.sleep(10)
@@ -241,15 +248,23 @@ def run(ck):
         for la in (0.02, 0.0):
             pops.append(list(extra))
             lat.append(la)
-    traces = [run_write(p, latency=la, seed=ck.seed) for p, la in zip(pops, lat)]
+    lost = [None] * len(pops)
+    # a transmission fault on our own side at every position of the procedure: the k-th frame gets no L_Data.con and reaches nobody
+    for p in ([(1, 0, "answers"), (2, 1, "answers")], [(2, 1, "answers")], [(1, 0, "answers"), (1, 1, "answers")], [(1, 1, "answers")],
+              [(1, 0, "refuses"), (2, 1, "answers")], [(1, 0, "lossy"), (3, 1, "answers")], [(1, 0, "answers"), (2, 1, "answers"), (3, 1, "answers")]):
+        for k in range(1, 13):
+            pops.append(list(p))
+            lat.append(0.02)
+            lost.append(k)
+    traces = [run_write(p, latency=la, seed=ck.seed, lostcon=lc) for p, la, lc in zip(pops, lat, lost)]
     res = tlc.batch(ck, "mgmt/AddrWrite_Trace", traces, min_per_shard=100)
     for idx, info in sorted(res.bad.items()):
         t = traces[idx]["ev"]
         l = info if isinstance(info, int) else 0
         e = t[l - 1] if 0 < l <= len(t) else None
-        ck.violation({"population": [list(x) for x in pops[idx]], "rejected": (e or {}).get("ev"), "latency": lat[idx]},
-                     f"address write on population {pops[idx]} (addr, prog, behaviour; target 1) rejected at event {l}: {e}; events {t}",
-                     {"kind": "write", "population": pops[idx], "latency": lat[idx], "trace": traces[idx], "rejected_at": l})
+        ck.violation({"population": [list(x) for x in pops[idx]], "rejected": (e or {}).get("ev"), "latency": lat[idx], "lost_frame": lost[idx]},
+                     f"address write on population {pops[idx]} (addr, prog, behaviour; target 1" + (f"; our frame {lost[idx]} lost" if lost[idx] else "") + f") rejected at event {l}: {e}; events {t}",
+                     {"kind": "write", "population": pops[idx], "latency": lat[idx], "lostcon": lost[idx], "trace": traces[idx], "rejected_at": l})
     cases = []
     for resp in itertools.chain.from_iterable(itertools.product(list(itertools.product((1, 2), (2, 3))), repeat=k) for k in range(0, 3)):
         for req in (1, 2):
@@ -287,7 +302,7 @@ def replay(ck, path):
 
     d = json.loads(open(path).read())["replay"]
     if d.get("kind") == "write":
-        t = run_write([tuple(x) for x in d["population"]], latency=d.get("latency", 0.02), seed=ck.seed)
+        t = run_write([tuple(x) for x in d["population"]], latency=d.get("latency", 0.02), seed=ck.seed, lostcon=d.get("lostcon"))
         res = tlc.batch(ck, "mgmt/AddrWrite_Trace", [t])
         print("trace:", t, "\nrejected at:", res.bad.get(0))
         return 1 if res.bad else 0
